@@ -278,6 +278,7 @@ def run_parse_op(parser, cfg, op, log_holder=None):
                 source = make_source("simtext", source, op["src"], log)
         if "scripting" in op:
             kwargs["scripting"] = op["scripting"]
+        probes.set_budget(len(bytes.fromhex(op["hex"])) if kind == "parse_bytes" else len(_doc_text(op)))
 
         def call():
             if kind == "frag":
@@ -306,6 +307,7 @@ def run_parse_op(parser, cfg, op, log_holder=None):
             return ("raise", type(e).__name__, str(e)[:200])
         return ("ok", canon_tree(tree, cfg["builder"]), canon_errors(parser.errors), _doc_encoding(parser), tree)
     finally:
+        probes.set_budget(None)
         U._defaultChunkSize = saved_chunk
 
 
